@@ -1,6 +1,6 @@
 import Pm.InterpPass
 /-! C08 part C: the bytes sent while an action runs to completion are the send texts of its unrolled script, in order -/
-namespace Pm.Dev2
+namespace Pm.Dev2.Interp
 
 /-- the sequences of send texts a flat program can produce: every operation in order, a guard either replaced by its
     body or skipped; a send whose text does not exist (`hostlist_sort` assertion) cannot be passed -/
@@ -354,7 +354,6 @@ theorem sends_are_script_noif (R : Bool) (dp : List Plug) (a : Action) (script :
   have := path_guardFree _ _ (sends_are_script R dp a script plugs ss hfresh h) hg
   exact ⟨this, by rw [this]⟩
 
-#print axioms sends_are_script_noif
 
 
 mutual
@@ -422,7 +421,6 @@ theorem mrun_acc (now : Time) : ∀ (n : Nat) (d : Dev) (a : Action) (o : Oracle
       · rw [ih _ _ _ (acc ++ _), ih _ _ _ ([] ++ _)]; simp
       · simp
 
-#print axioms guardFree_unroll
 
 
 theorem stackOK_mem_pos (R : Bool) (stack : List ExecCtx) (h : StackOK R stack) (c : ExecCtx) (hc : c ∈ stack) :
@@ -457,7 +455,6 @@ theorem rewind_ok (R : Bool) (dp : List Plug) (a : Action) (h : StackOK R a.exec
     · unfold rewind; simp [hl]
     · unfold rewind; simp [hl]
 
-#print axioms rewind_ok
 
 
 /-! ### concrete values for the non-vacuity examples and the counterexample -/
@@ -522,14 +519,79 @@ theorem depth65_reference :
 
 theorem depth64_mirror : sents (processActionF 200 (exCS (exNest 64)) ⟨[]⟩ [] none).2.2.1 = [[120]] := by decide +kernel
 
-#print axioms exCompletes
-#print axioms depth65_mirror
 
-#print axioms fstep_path
-#print axioms completes_path
-#print axioms sends_are_script
-#print axioms mrun_acc
-#print axioms depth65_reference
-#print axioms depth64_mirror
 
-end Pm.Dev2
+/-- a statement that reports "not finished" leaves the stack as it was — same contexts, same blocks, same positions,
+    same iterators — except possibly for the `processing` flag of the top context (a send or delay that has started) -/
+theorem unfinished_shape (d : Dev) (a : Action) (o : Oracle) (now : Time) (e : ExecCtx) (rest : List ExecCtx)
+    (hex : a.exec = e :: rest) (h : (processStmt d a o now).finished = false) :
+    ∃ p', (processStmt d a o now).act.exec = { e with processing := p' } :: rest := by
+  have hdrop : a.exec.drop 1 = rest := by simp [hex]
+  have hself : a.exec = { e with processing := e.processing } :: rest := by rw [hex]
+  cases hcur : e.block[e.pos]? with
+  | none =>
+    exfalso
+    have : processStmt d a o now = ⟨d, a, o, [.abortAssert "cur == NULL"], true⟩ := by
+      unfold processStmt; simp only [topCtx_of_exec a e rest hex, hcur]
+    rw [this] at h; cases h
+  | some s =>
+    cases s with
+    | expect pat =>
+      have hps : processStmt d a o now = stmtExpect d a o pat := processStmt_at d a o now e rest hex _ hcur
+      exact ⟨e.processing, by rw [hps, stmtExpect_act]; exact hself⟩
+    | send fmt =>
+      have hps : processStmt d a o now = stmtSend d a o e fmt := processStmt_at d a o now e rest hex _ hcur
+      rw [hps] at h ⊢
+      rw [stmtSend_eq] at h ⊢
+      unfold stmtSend' at h ⊢
+      by_cases hp : e.processing = true
+      · simp only [hp, Bool.not_true, Bool.false_eq_true, ↓reduceIte] at h ⊢
+        split at h
+        · cases h
+        · rename_i hb; rw [if_neg hb]; exact ⟨true, by show a.exec = _; rw [hex]; cases e; simp_all⟩
+      · have hp' : e.processing = false := by simpa using hp
+        simp only [hp', Bool.not_false, ↓reduceIte] at h ⊢
+        cases hst : sendText fmt e.plugs with
+        | none => simp [hst] at h
+        | some t =>
+          simp only [hst] at h ⊢
+          split at h
+          · cases h
+          · rename_i hb; rw [if_neg hb]; exact ⟨true, by simp [hdrop]⟩
+    | delay us =>
+      have hps : processStmt d a o now = stmtDelay d a o e now us := processStmt_at d a o now e rest hex _ hcur
+      rw [hps] at h ⊢
+      rw [stmtDelay_eq] at h ⊢
+      unfold stmtDelay' stmtDelayTail at h ⊢
+      by_cases hp : e.processing = true
+      · simp only [hp, Bool.not_true, Bool.false_eq_true, ↓reduceIte] at h ⊢
+        split at h
+        · cases h
+        · rename_i hb; rw [if_neg hb]; exact ⟨true, by show a.exec = _; rw [hex]; cases e; simp_all⟩
+      · have hp' : e.processing = false := by simpa using hp
+        simp only [hp', Bool.not_false, ↓reduceIte] at h ⊢
+        split at h
+        · cases h
+        · rename_i hb; rw [if_neg hb]; exact ⟨true, by simp [hdrop]⟩
+    | setplugstate l pm sm is =>
+      have hps : processStmt d a o now = stmtSetplugstate d a o e l pm sm is := processStmt_at d a o now e rest hex _ hcur
+      exfalso; rw [hps, stmtSetplugstate_eq, (setplugstateCore_frame d a o _ l pm sm is).2] at h; cases h
+    | setresult pm sm is =>
+      have hps : processStmt d a o now = stmtSetresult d a o pm sm is := processStmt_at d a o now e rest hex _ hcur
+      exfalso; rw [hps, (stmtSetresult_frame d a o pm sm is).2] at h; cases h
+    | foreachplug b =>
+      have hps : processStmt d a o now = stmtForeach d a o e b false := processStmt_at d a o now e rest hex _ hcur
+      exfalso; rw [hps, (stmtForeach_frame d a o e b false).2.2.2] at h; cases h
+    | foreachnode b =>
+      have hps : processStmt d a o now = stmtForeach d a o e b true := processStmt_at d a o now e rest hex _ hcur
+      exfalso; rw [hps, (stmtForeach_frame d a o e b true).2.2.2] at h; cases h
+    | ifon b =>
+      have hps : processStmt d a o now = stmtIf d a o e b true := processStmt_at d a o now e rest hex _ hcur
+      exfalso; rw [hps, (stmtIf_frame d a o e b true).2.2.2] at h; cases h
+    | ifoff b =>
+      have hps : processStmt d a o now = stmtIf d a o e b false := processStmt_at d a o now e rest hex _ hcur
+      exfalso; rw [hps, (stmtIf_frame d a o e b false).2.2.2] at h; cases h
+
+
+
+end Pm.Dev2.Interp
